@@ -198,6 +198,7 @@ func runC06(c *Ctx) {
 	c.RulePrefix = "C03/"
 	c03Verify(c)
 	c.RulePrefix = ""
+	c06AuthGate(c)
 }
 
 // ---- who may decrement / increment the counter ------------------------------------------
@@ -1312,6 +1313,43 @@ func (m *tqModel) deliveries() {
 					})
 					okg, path := Guarded(fn.Blocks[0], in, pass, nil)
 					c.Check(okg && nonVacuous(pass), "R8", "deliver:on-success-only", p.InstrPos(in), "watchers are notified only for a result without error", "a transfer is delivered to watchers although its result carries an error: "+path)
+					// one notification per queued entry of the OID, each describing that entry: name, path, oid and size
+					// of what is sent come from the loop's own element (two paths with identical content are two
+					// entries of one OID; the filter process and pull look the path up by this name)
+					if al, isAl := s.X.(*ssa.Alloc); isAl {
+						loops := Loops(fn)
+						lp := LoopOf(loops, b)
+						for _, r := range Referrers(al) {
+							fa, ok := r.(*ssa.FieldAddr)
+							if !ok {
+								continue
+							}
+							_, fld := fieldAddrName(fa)
+							if fld != "Name" && fld != "Path" && fld != "Oid" && fld != "Size" {
+								continue
+							}
+							for _, rr := range Referrers(fa) {
+								st, ok := rr.(*ssa.Store)
+								if !ok || st.Addr != ssa.Value(fa) {
+									continue
+								}
+								_, srcF, base, isF := FieldOf(st.Val)
+								own := false
+								if isF && srcF == fld && lp != nil {
+									if ld, ok := Unwrap(base).(*ssa.UnOp); ok {
+										if ia, ok := ld.X.(*ssa.IndexAddr); ok && lp.RangedOperand() != nil && Unwrap(ia.X) == Unwrap(lp.RangedOperand()) {
+											own = true
+										}
+									}
+									if ia, ok := Unwrap(base).(*ssa.IndexAddr); ok && lp.RangedOperand() != nil && Unwrap(ia.X) == Unwrap(lp.RangedOperand()) {
+										own = true
+									}
+								}
+								c.Check(own, "R8", "deliver:describes-own-entry:"+fld, p.InstrPos(st), "the notification's "+fld+" is that of the entry being iterated",
+									"the notification sent for each queued entry of an OID takes its "+fld+" from somewhere else than that entry ("+describeValue(p, st.Val)+"): with two paths of identical content one path is announced twice and the other never")
+							}
+						}
+					}
 				case p.Fn("tq", "(*TransferQueue).Add"):
 					pass := PassEdges(fn, func(cond ssa.Value) (bool, bool) {
 						if _, f, _, ok := FieldOf(cond); ok && f == "completed" {
@@ -1552,4 +1590,121 @@ var c06Canaries = []Canary{
 	{Name: "batch-error-dropped", ExpectKey: "C06.R11", Edits: []Edit{{File: "tq/transfer_queue.go", Find: "			retries, err = q.enqueueAndCollectRetriesFor(next)\n			if err != nil {\n				q.errorc <- err\n			}", Repl: "			retries, err = q.enqueueAndCollectRetriesFor(next)\n			if err != nil && !errors.IsRetriableError(err) {\n				q.errorc <- err\n			}"}}},
 	{Name: "done-elsewhere", ExpectKey: "C06.R4", Edits: []Edit{{File: "tq/transfer_queue.go", Find: "func (q *TransferQueue) Skip(size int64) {\n	q.meter.Skip(size)", Repl: "func (q *TransferQueue) Skip(size int64) {\n	if size < 0 {\n		q.wait.Done()\n	}\n	q.meter.Skip(size)"}}},
 	{Name: "partition-drops-empty", ExpectKey: "C06.R4", Edits: []Edit{{File: "tq/transfer_queue.go", Find: "		} else {\n			present = append(present, t)\n		}", Repl: "		} else if t.Size > 0 {\n			present = append(present, t)\n		}"}}},
+}
+
+// c06AuthGate (R12): workers 1..n-1 of an adapter sleep on authWait until worker 0 has got its first answer; Begin
+// adds one to that wait group. It must be released exactly once whatever happens to worker 0's jobs, otherwise
+// the other workers never start or finish and TransferQueue.Wait() does not return. The code keeps a flag "the
+// gate still has to be released" that is cleared where Done is called and tested before the fall-back Done at the
+// end of the worker. Decided: (a) the flag is cleared only next to a call of authWait.Done(), (b) every
+// authWait.Done() clears the flag in the same block or is guarded by the flag, (c) the guarded fall-back exists
+// after the job loop.
+func c06AuthGate(c *Ctx) {
+	p := c.P
+	w := p.Fn("tq", "(*adapterBase).worker")
+	if w == nil {
+		c.Missing("R12", "(*tq.adapterBase).worker", "not found")
+		return
+	}
+	isGateDone := func(in ssa.Instruction) bool {
+		cc := AsCall(in)
+		if cc == nil || CalleeName(cc) != "(*sync.WaitGroup).Done" {
+			return false
+		}
+		if fa, ok := cc.Args[0].(*ssa.FieldAddr); ok {
+			_, f := fieldAddrName(fa)
+			return f == "authWait"
+		}
+		_, f, _, ok := FieldOf(cc.Args[0])
+		return ok && f == "authWait"
+	}
+	// the flag: the cell tested by the branch guarding a top-level Done
+	var flag ssa.Value
+	var fallback ssa.Instruction
+	for _, b := range w.Blocks {
+		for _, in := range b.Instrs {
+			if !isGateDone(in) {
+				continue
+			}
+			for _, dc := range decidingConds(w, b) {
+				if ld, ok := dc.Cond.(*ssa.UnOp); ok && ld.Op == token.MUL && dc.Want {
+					if _, isAl := ld.X.(*ssa.Alloc); isAl {
+						flag, fallback = ld.X, in
+					}
+				}
+			}
+		}
+	}
+	if flag == nil {
+		c.Bad("R12", "auth-gate:fallback", p.Pos(w.Pos()), "the worker has no fall-back authWait.Done() guarded by a `still to be released` flag that the release callback itself clears (a flag captured by the callback): if the job that got the callback fails before authentication, or no job arrives, nobody releases the gate and the other workers wait for ever")
+		return
+	}
+	c.OK("R12", "auth-gate:fallback", p.InstrPos(fallback), "fall-back release guarded by the flag")
+	sameCell := func(addr ssa.Value, fn *ssa.Function) bool {
+		if addr == flag {
+			return true
+		}
+		if fv, ok := addr.(*ssa.FreeVar); ok {
+			// the closure's binding for this free variable
+			for i, v := range fn.FreeVars {
+				if v == fv {
+					for _, r := range Referrers(fn) {
+						if mc, ok := r.(*ssa.MakeClosure); ok && i < len(mc.Bindings) && mc.Bindings[i] == flag {
+							return true
+						}
+					}
+				}
+			}
+		}
+		return false
+	}
+	nClear, nDone := 0, 0
+	for _, fn := range WithAnon(w) {
+		for _, b := range fn.Blocks {
+			hasDone, clears := false, false
+			var clearAt, doneAt ssa.Instruction
+			for _, in := range b.Instrs {
+				if isGateDone(in) {
+					hasDone, doneAt = true, in
+				}
+				if st, ok := in.(*ssa.Store); ok && sameCell(st.Addr, fn) {
+					if bv, isC := ConstBool(st.Val); isC && !bv {
+						clears, clearAt = true, in
+					}
+				}
+			}
+			if clears {
+				nClear++
+				c.Check(hasDone, "R12", fmt.Sprintf("auth-gate:cleared-only-with-Done#%d", nClear), p.InstrPos(clearAt), "the flag is cleared where the gate is released",
+					"the `gate still to be released` flag is cleared without authWait.Done() being called there: if the job that was given the release callback fails before authentication, nobody releases the gate; the other workers never finish and Wait() blocks for ever")
+			}
+			if hasDone {
+				nDone++
+				guarded := false
+				if fn == w {
+					for _, dc := range decidingConds(w, b) {
+						if ld, ok := dc.Cond.(*ssa.UnOp); ok && ld.Op == token.MUL && ld.X == flag && dc.Want {
+							guarded = true
+						}
+					}
+				}
+				c.Check(clears || guarded, "R12", fmt.Sprintf("auth-gate:Done-once#%d", nDone), p.InstrPos(doneAt), "a release clears the flag or runs only while the flag is set",
+					"authWait.Done() can run without the flag recording it: the gate would be released twice (negative WaitGroup counter panic)")
+			}
+		}
+	}
+	// handing out the bare method value as the callback is a release the flag cannot see
+	for _, fn := range WithAnon(w) {
+		for _, b := range fn.Blocks {
+			for _, in := range b.Instrs {
+				if mc, ok := in.(*ssa.MakeClosure); ok {
+					if f, ok := mc.Fn.(*ssa.Function); ok && strings.Contains(f.String(), "sync.WaitGroup).Done$bound") {
+						c.Bad("R12", "auth-gate:release-not-tied-to-flag", p.InstrPos(in), "authWait.Done is handed out as a bare callback: the flag is no longer cleared by the release itself")
+					}
+				}
+			}
+		}
+	}
+	c.AtLeast("R12", "flag clearing sites", nClear, 1)
+	c.AtLeast("R12", "gate release sites", nDone, 2)
 }
